@@ -458,11 +458,22 @@ def _finish(prop, tier, seed, mod, results, dead, t0) -> int:
     known_seen = []
     new_viol = []
     os.makedirs(os.path.join(OUTDIR, "replays"), exist_ok=True)
+    def _known_lines():
+        # one line per listed finding (a finding keyed with a trailing * may match several violation keys)
+        by = {}
+        for k_ in known_seen:
+            by.setdefault(k_["finding"], []).append(k_)
+        out = []
+        for fk, items in by.items():
+            n = sum(i["count"] for i in items)
+            keys = ", ".join(i["key"] for i in items[:4]) + (f", ... ({len(items)} keys)" if len(items) > 4 else "")
+            out.append(f"KNOWN-FINDING: property={prop} {items[0]['what']} [finding={fk}; matched {keys}; seen {n}x]")
+        return out
+
     for key in sorted(viol):
         f = match_known(prop, key, known)
         if f is not None:
-            known_seen.append({"key": key, "count": vcount.get(key, len(viol[key])), "what": f["what"]})
-            lines.append(f"KNOWN-FINDING: property={prop} {f['what']} [key={key}; seen {vcount.get(key, len(viol[key]))}x]")
+            known_seen.append({"key": key, "count": vcount.get(key, len(viol[key])), "what": f["what"], "finding": f["key"]})
             continue
         w = viol[key][0]
         hid = hashlib.sha256(canon([key, w["case"]]).encode()).hexdigest()[:12]
@@ -510,7 +521,7 @@ def _finish(prop, tier, seed, mod, results, dead, t0) -> int:
     with open(os.path.join(OUTDIR, "evidence", f"{prop}.json"), "w") as fh:
         json.dump(ev, fh, indent=1, default=jdefault)
 
-    for ln in lines:
+    for ln in _known_lines() + lines:
         print(ln)
     summary = (f"{prop} {tier} seed={seed}: evaluations={evaluations} distinct_nontrivial={len(hashes)} "
                f"cells={len(cells)} known={len(known_seen)} new_violations={len(new_viol)} wall={wall}s")
